@@ -298,7 +298,7 @@ def corpus():
 
 
 def gen_cases(rng, tier):
-    n = {"quick": 700, "thorough": 7000, "search": 1500}[tier]
+    n = {"quick": 450, "thorough": 4000, "search": 1200}[tier]
     cases = []
     for _ in range(n):
         cases.append(_segcase(rng, "export_bed"))
@@ -313,7 +313,7 @@ def gen_cases(rng, tier):
                              "has_cn": rng.random() < 0.5, "show": "variant"}
                         cases.append(_segcase(rng, "export_bed", force=f))
                         cases.append(_segcase(rng, "export_vcf", force=f))
-    m = {"quick": 150, "thorough": 1200, "search": 200}[tier]
+    m = {"quick": 100, "thorough": 800, "search": 200}[tier]
     for _ in range(m):
         cases.append(_segfile_case(rng))
         cases.append(_tablecase(rng))
